@@ -137,19 +137,53 @@ pub fn parse_f64(v: &Value) -> f64 {
     v.as_f64().expect("harness: f64")
 }
 
-pub fn parse_options(o: &Value) -> ResizeOptions {
-    let mut opt = ResizeOptions::new();
+fn parse_alg(o: &Value) -> ResizeAlg {
     let filter = o.get("filter").and_then(|f| f.as_str()).unwrap_or("Lanczos3");
     let support = o.get("support").map(parse_f64).unwrap_or(1.5);
-    FPARAM.set(o.get("fparam").map(parse_f64).unwrap_or(0.0));
     let ft = parse_filter(filter, support);
-    let alg = match o.get("alg").and_then(|a| a.as_str()).unwrap_or("conv") {
+    match o.get("alg").and_then(|a| a.as_str()).unwrap_or("conv") {
         "nearest" => ResizeAlg::Nearest,
         "conv" => ResizeAlg::Convolution(ft),
         "interp" => ResizeAlg::Interpolation(ft),
         "ss" => ResizeAlg::SuperSampling(ft, o.get("m").and_then(|m| m.as_u64()).unwrap_or(2) as u8),
         a => panic!("harness: unknown alg {a}"),
-    };
+    }
+}
+
+/// Applies a recorded sequence of builder calls (a behaviour of spec/Options.tla) to `ResizeOptions::new()`.
+fn build_options(steps: &[Value]) -> ResizeOptions {
+    let mut opt = ResizeOptions::new();
+    for s in steps {
+        opt = match s.get("op").and_then(|o| o.as_str()).unwrap_or("") {
+            "new" => ResizeOptions::new(),
+            "default" => ResizeOptions::default(),
+            "alg" => opt.resize_alg(parse_alg(s)),
+            "alpha" => opt.use_alpha(s["v"].as_bool().unwrap()),
+            "crop" => {
+                let a = s["v"].as_array().unwrap();
+                opt.crop(parse_f64(&a[0]), parse_f64(&a[1]), parse_f64(&a[2]), parse_f64(&a[3]))
+            }
+            "fit" => {
+                let a = s["v"].as_array().unwrap();
+                if a.is_empty() {
+                    opt.fit_into_destination(None)
+                } else {
+                    opt.fit_into_destination(Some((parse_f64(&a[0]), parse_f64(&a[1]))))
+                }
+            }
+            o => panic!("harness: unknown builder step {o}"),
+        };
+    }
+    opt
+}
+
+pub fn parse_options(o: &Value) -> ResizeOptions {
+    FPARAM.set(o.get("fparam").map(parse_f64).unwrap_or(0.0));
+    if let Some(steps) = o.get("builder").and_then(|b| b.as_array()) {
+        return build_options(steps);
+    }
+    let mut opt = ResizeOptions::new();
+    let alg = parse_alg(o);
     opt = opt.resize_alg(alg);
     if let Some(a) = o.get("alpha").and_then(|a| a.as_bool()) {
         opt = opt.use_alpha(a);
@@ -176,7 +210,7 @@ pub fn parse_options(o: &Value) -> ResizeOptions {
 }
 
 pub enum Op<'a> {
-    Resize(&'a mut Resizer, &'a ResizeOptions),
+    Resize(&'a mut Resizer, Option<&'a ResizeOptions>),
     Mul(&'a MulDiv),
     Div(&'a MulDiv),
     MapF(&'a PixelComponentMapper),
